@@ -13,8 +13,8 @@
    An array held by an inversion is a reference: either an array the inversion owns ([MOwn]/[VOwn]) or an
    ALIAS of a preload cell; in-place numpy statements (`curvature_matrix += regularization_matrix`,
    `data_vector[a:b] = ...`, `curvature_matrix[a:b, c:d] = ...`) go through the reference, so they write the
-   preload cell when the reference is an alias.  `copy.copy(preloads.curvature_matrix)` is what turns the
-   alias into an owned array.
+   preload cell when the reference is an alias.  `copy.copy(preloads.curvature_matrix)` (and, since /repo commit
+   902c41f, `copy.copy(preloads.curvature_matrix_mapper_diag)`) is what turns the alias into an owned array.
 
    Scalars are an abstract type [T]; the numeric kernels (convolution, B^T N^-1 d, B^T N^-1 B, the w-tilde
    kernels, the solver, the log-determinants ...) are the fields of an arbitrary record [kernels]: the theorems
@@ -430,7 +430,7 @@ Section Model.
   Definition cmd_ref (w : wtilde T) : M (mref T) :=
     s <- gets (@s_cmd T) ;;
     match s with
-    | Some _ => ret (MAlias SCmd)
+    | Some c => ret (MOwn c)      (* copy.copy(self.preloads.curvature_matrix_mapper_diag): /repo commit 902c41f *)
     | None => ret (MOwn (apply_mws (zeros_m total total) (cmd_writes (wt_w w))))
     end.
   Definition multi_ref (w : wtilde T) : M (mref T) := r <- cmd_ref w ;; write_m r (multi_writes (wt_w w)).
@@ -709,10 +709,10 @@ Definition store_close (a b : pstore Q) : bool :=
   && option_eqb (list_eqb (qmclose qtol)) (s_dlf a) (s_dlf b)
   && option_eqb (list_eqb (qmclose qtol)) (s_momm a) (s_momm b)
   && option_eqb (qclose qtol) (s_ldr a) (s_ldr b).
-(* the slots the property text requires to stay untouched: everything except the two arrays the w-tilde
-   class completes in place (data_vector_mapper, curvature_matrix_mapper_diag) *)
+(* the slots that must stay untouched: everything except the one array the w-tilde class completes in place
+   (data_vector_mapper: the function rows are assigned into the preloaded vector) *)
 Definition frozen (p : pstore Q) : pstore Q :=
-  {| s_use_wt := s_use_wt p; s_wt := s_wt p; s_omm := s_omm p; s_curv := s_curv p; s_cmd := None;
+  {| s_use_wt := s_use_wt p; s_wt := s_wt p; s_omm := s_omm p; s_curv := s_curv p; s_cmd := s_cmd p;
      s_reg := s_reg p; s_dvm := None; s_lf := s_lf p; s_dlf := s_dlf p; s_momm := s_momm p; s_ldr := s_ldr p |}.
 Definition store_same_exact (a b : pstore Q) : bool :=
   let me := list_eqb (list_eqb Qeq_bool) in
@@ -760,7 +760,7 @@ Definition spec_ok (k : case) : bool :=
       && forallb (fun qo1 => forallb (fun qo2 =>
                     if list_eqb (@qty_eqb) (fst qo1) (fst qo2) then outs_close (snd qo1) (snd qo2) else true)
                     (combine h outs)) (combine h outs)
-      (* the preloaded curvature matrix (and every slot other than the two completed in place) is unchanged *)
+      (* the preloaded curvature matrix (and every slot other than data_vector_mapper) is unchanged *)
       && store_same_exact (frozen post) (frozen pre)
   | KNoise inp pre raised =>
       (* InversionException exactly when the w-tilde class is built with a w_tilde whose value differs from noise_map[0] *)
